@@ -21,6 +21,7 @@ STREAM = 'tree'
 FINAL = ('SUCCESS', 'ERROR', 'CANCELLED')
 SKIP_SIG = {'kind': 'cancel-skips-running-descendants-of-a-finished-child'}
 LATE_SIG = {'kind': 'subworkflow-started-below-cancelled-workflow'}
+RESTOP_SIG = {'kind': 'second-stop-success-rewrites-message-and-reports-again'}
 
 
 # ======================================================================================= generator
@@ -326,30 +327,31 @@ def run_case(case, script=None, max_steps=500):
                 if e['ev'] == 'execute':
                     forced['ok'] = e['ok']
                 deliver(hit[0], mp.item(hit[0]))
-        else:
-            ops = sorted(copy.deepcopy(case['ops']), key=lambda o: o['at'])
-            oi = 0
-            while True:
-                if step >= max_steps:
-                    exhausted = True
-                    break
-                while oi < len(ops) and ops[oi]['at'] <= step:
-                    o = ops[oi]
-                    oi += 1
-                    do_stop(_choose(robs[-1], o), o['state'], o['msg'])
-                en = _enabled(w)
-                if not en:
-                    if oi < len(ops):
-                        ops[oi]['at'] = step
-                        continue
-                    break
-                it = er.pick(rng, case['policy'], en)
-                mi = mp.item(it)
-                if mi is None or mi.get('n') is None:
-                    unsupported = w.describe(it)
-                    break
-                deliver(it, mi)
-                step += 1
+            forced.clear()
+        # the generated schedule (after a script: everything still pending is delivered)
+        ops = sorted(copy.deepcopy(case['ops']), key=lambda o: o['at']) if script is None else []
+        oi = 0
+        while unsupported is None:
+            if step >= max_steps:
+                exhausted = True
+                break
+            while oi < len(ops) and ops[oi]['at'] <= step:
+                o = ops[oi]
+                oi += 1
+                do_stop(_choose(robs[-1], o), o['state'], o['msg'])
+            en = _enabled(w)
+            if not en:
+                if oi < len(ops):
+                    ops[oi]['at'] = step
+                    continue
+                break
+            it = er.pick(rng, case['policy'], en)
+            mi = mp.item(it)
+            if mi is None or mi.get('n') is None:
+                unsupported = w.describe(it)
+                break
+            deliver(it, mi)
+            step += 1
         return {'yaml': y, 'events': events, 'real': robs, 'unsupported': unsupported,
                 'errors': [{k: e.get(k) for k in ('where', 'declared', 'type', 'msg')} for e in w.errors],
                 'exhausted': exhausted}
@@ -411,10 +413,15 @@ def monitor(run):
                     hits.append(('finished-state-changed', {'kind': 'finished-state-changed'},
                                  {'exec': i, 'was': frozen[i], 'now': e[3:6], 'step': k, 'event': ev[k]}))
                 elif (e[4], e[5]) != frozen[i][1:]:
-                    restop = ev[k].get('ev') == 'stop' and ev[k].get('state') == 'SUCCESS' and ev[k].get('wf') == i
-                    hits.append(('finished-output-changed', {'kind': 'finished-message-rewritten-by-second-stop-success'}
-                                 if restop else {'kind': 'finished-output-changed'},
-                                 {'exec': i, 'was': frozen[i], 'now': e[3:6], 'step': k, 'event': ev[k]}))
+                    restop = ev[k].get('ev') == 'stop' and ev[k].get('state') == 'SUCCESS' and ev[k].get('wf') == i \
+                        and e[5] == frozen[i][2]
+                    if restop and not frozen[i][1].startswith('op:'):
+                        # a stop(SUCCESS, msg) request on an execution that SUCCEEDED by itself attaches the
+                        # message; state and output are unchanged (not a statement of C11)
+                        pass
+                    else:
+                        hits.append(('finished-output-changed', dict(RESTOP_SIG) if restop else {'kind': 'finished-output-changed'},
+                                     {'exec': i, 'was': frozen[i], 'now': e[3:6], 'step': k, 'event': ev[k]}))
                     frozen[i] = (e[3], e[4], e[5])
             elif e[3] in FINAL:
                 frozen[i] = (e[3], e[4], e[5])
